@@ -605,7 +605,8 @@ theorem inv_pTerm {cfg : Cfg} {P : Pend} {s : St} {g : Nat} (t : Ev) (ht : t.isT
     (hsub : s.subject = some g) (ha : GenActive P s g) :
     Inv (P.afterTerm g) (pTerm cfg g t s) ∧ (pTerm cfg g t s).ngens = s.ngens ∧ (pTerm cfg g t s).nsubs = s.nsubs ∧
       (P.ug ≠ some g → ((pTerm cfg g t s).gens g).upTorn = true) ∧ (∀ k, k ≠ g → (pTerm cfg g t s).gens k = s.gens k) ∧
-      (pTerm cfg g t s).subject = (if cfg.flags.resetsOn t then none else some g) := by
+      (pTerm cfg g t s).subject = (if cfg.flags.resetsOn t then none else some g) ∧
+      openSubs (pTerm cfg g t s) = [] := by
   have hc : t.code ≠ 0 := by cases t <;> simp [Ev.code, Ev.isTerminal] at *
   have hterm : Status.ofTerminal t ≠ Status.open := by cases t <;> simp [Status.ofTerminal, Ev.isTerminal] at *
   have hss : s.sourceSubscription = some g := by rw [hi.shared]; exact hsub
@@ -706,7 +707,7 @@ theorem inv_pTerm {cfg : Cfg} {P : Pend} {s : St} {g : Nat} (t : Ev) (ht : t.isT
   refine ⟨?_, by simp [subjClear, f4.ngens, hng], by simp [subjClear, f4.nsubs, hns],
     fun hne => by rw [hut6]; exact (ha.fin hne).1,
     fun k hkg => by simp [subjClear, hkg, f4.gens k hkg, hgens k hkg],
-    by simp [subjClear, f4.subject, hsubj3, hsubj2]⟩
+    by simp [subjClear, f4.subject, hsubj3, hsubj2], by rw [hos6]; exact hno4⟩
   constructor
   case shared => simp [subjClear]; exact h4.shared
   case closed =>
@@ -794,18 +795,21 @@ theorem inv_pTerm {cfg : Cfg} {P : Pend} {s : St} {g : Nat} (t : Ev) (ht : t.isT
 
 /-- a notification reaches the proxy of the live current generation -/
 theorem inv_pEmit {cfg : Cfg} {P : Pend} {s : St} {g : Nat} (x : Ev) (hi : Inv P s) (hsub : s.subject = some g) (ha : GenActive P s g) :
-    (Inv P (pEmit cfg g x s) ∨ Inv (P.afterTerm g) (pEmit cfg g x s)) ∧ (pEmit cfg g x s).ngens = s.ngens ∧ (pEmit cfg g x s).nsubs = s.nsubs ∧
+    ((Inv P (pEmit cfg g x s) ∧ (openSubs s = [] → openSubs (pEmit cfg g x s) = [])) ∨
+     (Inv (P.afterTerm g) (pEmit cfg g x s) ∧ openSubs (pEmit cfg g x s) = [])) ∧
+      (pEmit cfg g x s).ngens = s.ngens ∧ (pEmit cfg g x s).nsubs = s.nsubs ∧
       (∀ k, k ≠ g → (pEmit cfg g x s).upLive k = s.upLive k) := by
   cases x with
   | next v =>
     have hs := pNext_sim cfg g v s
-    exact ⟨Or.inl (hi.sim hs), hs.ngens, hs.nsubs, fun k _ => by simp [St.upLive, pEmit, hs.upSub, hs.upTorn]⟩
+    exact ⟨Or.inl ⟨hi.sim hs, fun h => by show openSubs (pNext cfg g v s) = []; rw [hs.openSubs]; exact h⟩, hs.ngens, hs.nsubs,
+      fun k _ => by simp [St.upLive, pEmit, hs.upSub, hs.upTorn]⟩
   | error e =>
-    obtain ⟨h1, h2, h3, _, h5, _⟩ := inv_pTerm (cfg := cfg) (.error e) rfl hi hsub ha
-    exact ⟨Or.inr h1, h2, h3, fun k hk => by simp [St.upLive, pEmit, h5 k hk]⟩
+    obtain ⟨h1, h2, h3, _, h5, _, h7⟩ := inv_pTerm (cfg := cfg) (.error e) rfl hi hsub ha
+    exact ⟨Or.inr ⟨h1, h7⟩, h2, h3, fun k hk => by simp [St.upLive, pEmit, h5 k hk]⟩
   | complete =>
-    obtain ⟨h1, h2, h3, _, h5, _⟩ := inv_pTerm (cfg := cfg) .complete rfl hi hsub ha
-    exact ⟨Or.inr h1, h2, h3, fun k hk => by simp [St.upLive, pEmit, h5 k hk]⟩
+    obtain ⟨h1, h2, h3, _, h5, _, h7⟩ := inv_pTerm (cfg := cfg) .complete rfl hi hsub ha
+    exact ⟨Or.inr ⟨h1, h7⟩, h2, h3, fun k hk => by simp [St.upLive, pEmit, h5 k hk]⟩
 
 /-- a closed proxy only feeds the drop hook -/
 theorem pEmit_closed_sim (cfg : Cfg) (g : Nat) (x : Ev) {u : St} (h1 : (u.gens g).pStatus ≠ 0) (h2 : (u.gens g).pDone = true) :
@@ -829,16 +833,15 @@ theorem upLive_cases {P : Pend} {s : St} (hi : Inv P s) (k : Nat) (hk : k < s.ng
     · have := hi.stale k hk hsub he
       simp [St.upLive, this.upTorn] at hl
 
-theorem Pend.afterTerm_afterTerm (P : Pend) (g g' : Nat) : ((P.afterTerm g).afterTerm g') = P.afterTerm g ∨ ((P.afterTerm g).afterTerm g') = P.drop ∨ ((P.afterTerm g).afterTerm g') = P := by
-  unfold Pend.afterTerm
-  split <;> split <;> simp_all [Pend.drop]
-
-/-- the invariant survives a push, possibly closing the pending creator -/
-theorem inv_push (cfg : Cfg) (x : Ev) {P : Pend} {s : St} (hi : Inv P s) : Inv P (push cfg x s) ∨ Inv P.drop (push cfg x s) := by
+/-- the invariant survives a push; a terminal on the pending generation closes its creator (and
+    everybody else) -/
+theorem inv_push (cfg : Cfg) (x : Ev) {P : Pend} {s : St} (hi : Inv P s) :
+    Inv P (push cfg x s) ∨ (Inv P.drop (push cfg x s) ∧ openSubs (push cfg x s) = []) := by
   unfold push
-  suffices h : ∀ (l : List Nat) (u : St), (Inv P u ∨ Inv P.drop u) → u.ngens = s.ngens → (∀ k, k ∈ l → k < s.ngens) →
+  suffices h : ∀ (l : List Nat) (u : St), (Inv P u ∨ (Inv P.drop u ∧ openSubs u = [])) → u.ngens = s.ngens → (∀ k, k ∈ l → k < s.ngens) →
       (Inv P (l.foldl (fun s g => if s.upLive g then pEmit cfg g x s else s) u) ∨
-       Inv P.drop (l.foldl (fun s g => if s.upLive g then pEmit cfg g x s else s) u)) from
+       (Inv P.drop (l.foldl (fun s g => if s.upLive g then pEmit cfg g x s else s) u) ∧
+        openSubs (l.foldl (fun s g => if s.upLive g then pEmit cfg g x s else s) u) = [])) from
     h _ s (Or.inl hi) rfl (fun k hk => List.mem_range.mp hk)
   intro l
   induction l with
@@ -850,36 +853,33 @@ theorem inv_push (cfg : Cfg) (x : Ev) {P : Pend} {s : St} (hi : Inv P s) : Inv P
     have hrest : ∀ k, k ∈ l → k < s.ngens := fun k hk => hl k (List.mem_cons_of_mem _ hk)
     by_cases hlive : u.upLive a = true
     · rw [if_pos hlive]
-      -- one step, for either pending state
-      have step : ∀ Q : Pend, (Q = P ∨ Q = P.drop) → Inv Q u →
-          (Inv P (pEmit cfg a x u) ∨ Inv P.drop (pEmit cfg a x u)) ∧ (pEmit cfg a x u).ngens = u.ngens := by
-        intro Q hQ hq
+      -- one step from a state satisfying `Inv Q`, Q ∈ {P, P.drop}
+      have step : ∀ Q : Pend, Inv Q u →
+          ((Inv Q (pEmit cfg a x u) ∧ (openSubs u = [] → openSubs (pEmit cfg a x u) = [])) ∨
+           (Inv Q.drop (pEmit cfg a x u) ∧ openSubs (pEmit cfg a x u) = [])) ∧ (pEmit cfg a x u).ngens = u.ngens := by
+        intro Q hq
         rcases upLive_cases hq a ha hlive with ⟨hsub, hact⟩ | ⟨_, h1, h2⟩
         · obtain ⟨h, hng, _, _⟩ := inv_pEmit (cfg := cfg) x hq hsub hact
           refine ⟨?_, hng⟩
-          have hat : Q.afterTerm a = Q ∨ Q.afterTerm a = Q.drop := by
-            unfold Pend.afterTerm; split <;> simp
-          rcases h with h | h
-          · rcases hQ with rfl | rfl
-            · exact Or.inl h
-            · exact Or.inr h
-          · rcases hQ with rfl | rfl
-            · rcases hat with e | e <;> rw [e] at h
-              · exact Or.inl h
-              · exact Or.inr h
-            · rcases hat with e | e <;> rw [e] at h
-              · exact Or.inr h
-              · exact Or.inr (by simpa [Pend.drop] using h)
+          rcases h with h | ⟨h, hno⟩
+          · exact Or.inl h
+          · unfold Pend.afterTerm at h
+            split at h
+            · exact Or.inr ⟨h, hno⟩
+            · exact Or.inl ⟨h, fun _ => hno⟩
         · have hsim := pEmit_closed_sim cfg a x h1 h2
-          refine ⟨?_, hsim.ngens⟩
-          rcases hQ with rfl | rfl
-          · exact Or.inl (hq.sim hsim)
-          · exact Or.inr (hq.sim hsim)
-      rcases hu with hu | hu
-      · obtain ⟨h, hng⟩ := step P (Or.inl rfl) hu
-        exact ih _ h (by rw [hng, hn]) hrest
-      · obtain ⟨h, hng⟩ := step P.drop (Or.inr rfl) hu
-        exact ih _ h (by rw [hng, hn]) hrest
+          exact ⟨Or.inl ⟨hq.sim hsim, fun h => by rw [hsim.openSubs]; exact h⟩, hsim.ngens⟩
+      rcases hu with hu | ⟨hu, hno⟩
+      · obtain ⟨h, hng⟩ := step P hu
+        refine ih _ ?_ (by rw [hng, hn]) hrest
+        rcases h with ⟨h, _⟩ | h
+        · exact Or.inl h
+        · exact Or.inr h
+      · obtain ⟨h, hng⟩ := step P.drop hu
+        refine ih _ ?_ (by rw [hng, hn]) hrest
+        rcases h with ⟨h, hk⟩ | ⟨h, hk⟩
+        · exact Or.inr ⟨h, hk hno⟩
+        · exact Or.inr ⟨by simpa [Pend.drop] using h, hk⟩
     · rw [if_neg hlive]
       exact ih _ hu hn hrest
 
